@@ -19,7 +19,7 @@ fn trigger_any_bytes<const N: usize>() {
     let len: usize = kani::any();
     kani::assume(len <= N);
     let mut message = Bytes::from_static(&data[..len]);
-    kani::cover!(len >= 10 && data[0] == 0xff && data[8] == 0xff, "a huge target count is offered");
+    kani::cover!(len >= 9 && data[0] == 0xff && data[7] == 0xff && data[8] >= 0x10, "a target count of at least 2^60 is offered");
     let registry = MaybeUninit::<AppTypeRegistry>::uninit();
     // SAFETY: never read by the default deserializer.
     let mut ctx = ServerReceiveCtx { type_registry: unsafe { registry.assume_init_ref() } };
@@ -40,14 +40,14 @@ fn trigger_any_bytes<const N: usize>() {
 // TIER: quick
 // TIMEOUT: 1500
 // DRIVES: trigger_deserialize, entity_serde::deserialize_entity, postcard_utils::from_buf, client_event::default_deserialize
-// BOUNDS: EVERY byte string of length 0..=10 (long enough for a target count of usize::MAX) handed to the trigger decoder (target count varint, targets, one-byte event); no panic (in particular no capacity overflow), the decoding loop terminates, and the target list never reserves more entries than the message has bytes; unwind 13
+// BOUNDS: EVERY byte string of length 0..=9 (long enough for a target count of 2^60 and more, whose reservation overflows) handed to the trigger decoder (target count varint, targets, one-byte event); no panic (in particular no capacity overflow), the decoding loop terminates, and the target list never reserves more entries than the message has bytes; unwind 12
 // TERMINATION: trigger_deserialize
 #[kani::proof]
-#[kani::unwind(13)]
+#[kani::unwind(12)]
 #[kani::stub(log::max_level, log_off)]
 #[kani::stub(<bytes::Bytes as core::ops::Drop>::drop, noop_bytes_drop)]
 fn c06_trigger_any_bytes() {
-    trigger_any_bytes::<10>();
+    trigger_any_bytes::<9>();
 }
 
 // HARNESS: c06_trigger_any_bytes_14
